@@ -772,7 +772,7 @@ func parseField(v reflect.Value, bytes []byte, initOffset int, params fieldParam
 		} else if params.private {
 			expectedClass = ClassPrivate
 		}
-		if offset == len(bytes) {
+		if offset == len(bytes) && t.class == expectedClass && t.tag == *params.tag {
 			err = StructuralError{"explicit tag has no child"}
 			return
 		}
